@@ -65,6 +65,9 @@ var MergeKeys = []string{"a", "b", "c", "d", "x<y", "", "a~1b", "~0", `b\s`, `q"
 // characters that a C string or a trimmed string loses, numerals spelled differently.
 var NearMissKeys = []string{"name", "Name", "NAME", "na\u017fme", "k", "K", "\u212a", "\u00e9", "e\u0301", "E\u0301", "a", "a ", " a", "a\x00", "a\x00b", "\uff41", "0", "00", "0.0", "\u00df", "ss", "SS"}
 
+// NearMissPlainKeys: the members of NearMissKeys that need no escape.
+var NearMissPlainKeys = []string{"name", "Name", "NAME", "na\u017fme", "k", "K", "\u212a", "\u00e9", "e\u0301", "E\u0301", "a", "a ", " a", "\uff41", "0", "00", "0.0", "\u00df", "ss", "SS"}
+
 var HostileStrings = []string{"", "s", "x<y>&z", "\xe2\x80\xa8\xe2\x80\xa9", "\u2039a\u203a\u203c\u2027\u202a\u2030", "é😀", `q"r\`, "\b\f\n\r\t\x01", "A", "/", "~", "null", "0", "a b", "\u007f", "𝄞", `\u003c`, `x\\u0026`, "[", "{\"", `a\"b`, `\\"`, `["\"]`, "a\ufffdb/", "\ufffd", `\`, `\\`}
 var PlainStrings = []string{"", "s", "A", "hello world", "null", "0", "é", "😀", "a b c"}
 
@@ -140,8 +143,15 @@ func SpellString(r *rand.Rand, s string, spell int, lone bool) string {
 	}
 	if lone && r.Intn(12) == 0 {
 		sb.WriteString(U([]string{"d800", "dc00", "dbff", "dfff"}[r.Intn(4)]))
-		if r.Intn(2) == 0 {
+		switch r.Intn(6) {
+		case 0, 1, 2:
 			sb.WriteString("x")
+		case 3:
+			// an escape right behind the unpaired half: it is a character of its own, not the second half of a pair
+			sb.WriteString(U([]string{"0041", "00e9", "2028", "003c", "fffd", "0000"}[r.Intn(6)]))
+		case 4:
+			// an unpaired half followed by a complete pair
+			sb.WriteString(U("d83d") + U("de00"))
 		}
 	}
 	sb.WriteByte('"')
